@@ -32,9 +32,9 @@ ASSUMPTIONS = ['documented exceptions: estimate state (transform, bias) of Estim
                'EstimationModel / Parameters / Turntable methods may change their own object but never their arguments',
                'Turntable.generate_imu is excluded: it raises at baseline under scipy 1.18 (test_Turntable fails in BASELINE.json)',
                'values across argument forms compared to <= 4 ulp of the result scale (spline-based synthesis: 2e4 ulp, i.e. 4e-12 relative, because memory layout changes summation order); repeats of the same form bitwise']
-REQUIRED_OBS = ['batch_prefix_runs', 'scalar_guise_runs', 'poison_comparisons', 'concurrent_calls_compared', 'stack_of_one_runs', 'permuted_column_runs', 'integer_form_comparisons', 'index_name_runs', 'history_replays', 'module_state_checks', 'callables_enumerated', 'callables_with_spec', 'purity_checks', 'readonly_runs', 'determinism_checks',
+REQUIRED_OBS = ['order_comparisons', 'batch_prefix_runs', 'scalar_guise_runs', 'poison_comparisons', 'concurrent_calls_compared', 'stack_of_one_runs', 'permuted_column_runs', 'integer_form_comparisons', 'index_name_runs', 'history_replays', 'module_state_checks', 'callables_enumerated', 'callables_with_spec', 'purity_checks', 'readonly_runs', 'determinism_checks',
                 'form_comparisons', 'schema_checks', 'ambient_calls_checked']
-REQUIRED_CLASSES = {'all': ['directed', 'ambient', 'poison', 'threads']}
+REQUIRED_CLASSES = {'all': ['directed', 'ambient', 'poison', 'threads', 'order']}
 MODULES = ['earth', 'error_model', 'filters', 'inertial_sensor', 'kalman', 'measurements', 'sim', 'strapdown', 'transform', 'util']
 EXCLUDED = {'sim.Turntable.generate_imu': 'raises at baseline under scipy 1.18'}
 EXTRA_PUBLIC = {'transform': ['ecef_to_lla'], 'util': ['Bunch']}
@@ -1023,6 +1023,7 @@ def cases(seed, tier):
     for i in range(2 if tier == 'quick' else 12):
         out.append(dict(cls='poison', seed=int(seed) * 100 + 50 + i, cost=120))
         out.append(dict(cls='threads', seed=int(seed) * 100 + 70 + i, cost=120))
+        out.append(dict(cls='order', seed=int(seed) * 100 + 90 + i, cost=120))
     if tier == 'thorough':
         out.append(dict(cls='ambient', kind='testsuite', seed=0, cost=4000))
     return out
@@ -1049,6 +1050,8 @@ def run_case(case):
         return run_poison(case)
     if case['cls'] == 'threads':
         return run_threads(case)
+    if case['cls'] == 'order':
+        return run_order(case)
     # ambient
     if not AMBIENT.get('installed'):
         install_ambient()
@@ -1109,3 +1112,65 @@ def run_case(case):
     obs['ambient_calls_checked'] = AMBIENT['calls']
     return dict(violations=out, obs=obs, nontrivial=True, evals=max(1, AMBIENT['calls']), nontrivial_count=max(1, AMBIENT['calls']),
                 sample=dict(kind=case['kind'], seed=case['seed'], public_calls_observed=AMBIENT['calls']))
+
+
+# ------------------------------------------------------------------ call order across processes
+def order_hashes(seed, reverse):
+    """sha256 of the flattened result of every module-level function specification (incl. the smoothing functions), evaluated in registry order or in
+    the reverse order.  Equal inputs must give bit-identical results whatever was called before - in particular in another process with another order
+    (a memo whose key is too coarse answers with what an EARLIER call with other arguments left behind: deterministic within one process, order
+    dependent across them)."""
+    import hashlib
+    rng = np.random.Generator(np.random.PCG64(seed))
+    S = specs(rng)
+    calls = []
+    for name, cs in S.items():
+        if name.count('.') != 1 or name.startswith('filters.'):
+            continue
+        for c in cs:
+            if c.self_obj is None and c.compare and c.seed_arg is None and inspect.isfunction(c.fn) and getattr(c.fn, '__module__', '').startswith('pyins'):
+                calls.append((f'{name}[{c.label}]', c))
+    if reverse:
+        calls = calls[::-1]
+    out = {}
+    for nm, c in calls:
+        try:
+            r = c.fn(*[clone(a) for a in c.args], **{k: clone(v) for k, v in c.kwargs.items()})
+            h = hashlib.sha256()
+            for lab, v in purity.flatten(r):
+                h.update(lab.encode())
+                h.update(np.ascontiguousarray(v).tobytes() if isinstance(v, np.ndarray) else repr(v).encode())
+            out[nm] = h.hexdigest()
+        except Exception as e:
+            out[nm] = f'EXC {type(e).__name__}'
+    return out
+
+
+def run_order(case):
+    import json
+    import subprocess
+    import sys
+    from rv.core import ROOT
+    fwd = order_hashes(case['seed'], False)
+    r = subprocess.run([sys.executable, '-W', 'ignore', '-m', 'rv.checks.C19', str(case['seed'])], cwd=ROOT, capture_output=True, text=True, timeout=1800)
+    try:
+        rev = json.loads(r.stdout.strip().splitlines()[-1])
+    except Exception:
+        return dict(violations=[], obs={}, nontrivial=False, inconclusive=f'order subprocess failed rc={r.returncode}: {(r.stderr or r.stdout)[-300:]}')
+    out = []
+    bad = sorted(k for k in fwd if k in rev and fwd[k] != rev[k])
+    for k in bad[:5]:
+        out.append(vio('call_order_dependent', f'{k}: the result for equal inputs differs (bitwise) between this process, where the registry was evaluated in order, and a '
+                       f'fresh process that evaluated it in the reverse order: state left behind by earlier calls with OTHER arguments reaches the result'))
+    obs = dict(order_comparisons=len([k for k in fwd if k in rev]))
+    return dict(violations=out, obs=obs, nontrivial=True, evals=max(1, obs['order_comparisons']), nontrivial_count=max(1, obs['order_comparisons']),
+                sample=dict(cls='order', functions=len(fwd)))
+
+
+if __name__ == '__main__':
+    import json
+    import sys
+    import warnings
+    warnings.filterwarnings('ignore')
+    patch.import_all()
+    print(json.dumps(order_hashes(int(sys.argv[1]), True)))
